@@ -226,7 +226,8 @@ class ErrorEstimator:
 
                 # Compare with rhs.
                 if M0u0:
-                    result[i] += M0u0(t, x.reshape(2, 1))
+                    # M0u0 returns an array with one entry for a (2, 1) point.
+                    result[i] += np.ravel(M0u0(t, x.reshape(2, 1)))[0]
                 if g:
                     result[i] -= g(t, x.reshape(2, 1))
 
